@@ -3,19 +3,22 @@
 //
 // usage: valset <traces.json>
 // Each trace: cfg {N}, init {sets:[{mem,pw,ac,...},...]}, steps
-//   Increment(s,k) Copy(s,t) Add(s,i,p,r) Update(s,i,p,r) Remove(s,i,r) Reload(s) GetProposer(s,r) GetTotal(s,r)
+//
+//	Increment(s,k) Copy(s,t) Add(s,i,p,r) Update(s,i,p,r) Remove(s,i,r) Reload(s) GetProposer(s,r) GetTotal(s,r)
+//
 // with the spec state after the step.
 //
 // Independent oracles (Failure.Property = true, keys in brackets):
-//   [BatchedEqualsRepeated] IncrementAccum(k) == k x IncrementAccum(1) in accums, proposer and hash
-//   [Proportional]          every window of TotalVotingPower consecutive selections of an unchanged set selects
-//                           each validator exactly VotingPower times (window kept by the driver, not the model)
-//   [Determinism]           a replica rebuilt from genesis with single increments only, no copies, no reloads,
-//                           agrees on validators, accums, hash and proposer
-//   [CopyIndependent]       Proposer() of every set equals that set's own entry; scribbling on returned values and
-//                           on arguments after the call changes nothing
-//   [SortedNoDup]           Validators strictly ascending by address
-//   [ReloadPreservesProposer] [ReloadPreservesSet] State.Save / LoadState round trip keeps proposer, validators, hash
+//
+//	[BatchedEqualsRepeated] IncrementAccum(k) == k x IncrementAccum(1) in accums, proposer and hash
+//	[Proportional]          every window of TotalVotingPower consecutive selections of an unchanged set selects
+//	                        each validator exactly VotingPower times (window kept by the driver, not the model)
+//	[Determinism]           a replica rebuilt from genesis with single increments only, no copies, no reloads,
+//	                        agrees on validators, accums, hash and proposer
+//	[CopyIndependent]       Proposer() of every set equals that set's own entry; scribbling on returned values and
+//	                        on arguments after the call changes nothing
+//	[SortedNoDup]           Validators strictly ascending by address
+//	[ReloadPreservesProposer] [ReloadPreservesSet] State.Save / LoadState round trip keeps proposer, validators, hash
 package main
 
 import (
@@ -27,8 +30,11 @@ import (
 
 	crypto "github.com/dappledger/AnnChain/gemmill/go-crypto"
 	dbm "github.com/dappledger/AnnChain/gemmill/modules/go-db"
+	glog "github.com/dappledger/AnnChain/gemmill/modules/go-log"
 	sm "github.com/dappledger/AnnChain/gemmill/state"
 	"github.com/dappledger/AnnChain/gemmill/types"
+
+	"go.uber.org/zap"
 
 	"verifharness/mbt"
 )
@@ -68,12 +74,12 @@ type world struct {
 	ids    []ident
 	byAddr map[string]int // address -> spec id
 	real   []*types.ValidatorSet
-	hist   [][]op                 // per slot: operations since genesis (for the shadow replica)
-	shadow []*types.ValidatorSet  // per slot: independent replica
-	win    [][]int                // per slot: proposers selected since the set was built / last changed
-	pris   []bool                 // per slot: unchanged since NewValidatorSet
-	taint  []bool                 // per slot: reloaded since the last IncrementAccum / mutation (known finding)
-	kept   []bool                 // per slot: a reload kept the proposer although the model says it changes (drift)
+	hist   [][]op                // per slot: operations since genesis (for the shadow replica)
+	shadow []*types.ValidatorSet // per slot: independent replica
+	win    [][]int               // per slot: proposers selected since the set was built / last changed
+	pris   []bool                // per slot: unchanged since NewValidatorSet
+	taint  []bool                // per slot: reloaded since the last IncrementAccum / mutation (known finding)
+	kept   []bool                // per slot: a reload kept the proposer although the model says it changes (drift)
 	genMem []int
 	genPw  []int64
 	order  int
@@ -249,6 +255,7 @@ func sameVals(a, b *types.ValidatorSet) string {
 
 func main() {
 	crypto.NodeInit(crypto.CryptoTypeZhongAn)
+	glog.SetLog(zap.NewNop())
 	if len(os.Args) < 2 {
 		fmt.Fprintln(os.Stderr, "usage: valset traces.json")
 		os.Exit(2)
